@@ -176,6 +176,14 @@ func RunItem(it Item) *Result {
 		} else {
 			chains[chainDigest(x.C)] = true
 		}
+		for _, e := range x.C.Errors {
+			if strings.Contains(e, "C17-VIOLATION") {
+				x.Viol = append(x.Viol, ev.Violation{Property: "C17", Key: "did-not-self-suspend", What: e, Replay: map[string]interface{}{"trace": x.C.Trace, "scenario": it.Scenario}})
+			}
+			if strings.Contains(e, "C17-SUSPENDED") {
+				res.Counters["c17_suspensions"]++
+			}
+		}
 		for _, v := range x.Viol {
 			k := v.Property + "/" + v.Key
 			if !violSeen[k] {
